@@ -48,6 +48,9 @@ type Replica struct {
 	Cfg ReplicaConfig
 	Doc *genesis.Document
 
+	// life is write-locked while the replica is closed/reopened; concurrent
+	// observers (queries, gas estimation) hold it for reading.
+	life sync.RWMutex
 	// mu serialises all ABCI calls like CometBFT's local client does.
 	mu     sync.Mutex
 	srv    *abci.ApplicationServer
@@ -158,8 +161,26 @@ func (r *Replica) Server() *abci.ApplicationServer { return r.srv }
 // State returns the application state of the replica.
 func (r *Replica) State() cmt.ApplicationState { return r.srv.State() }
 
+// WithAlive runs f while the replica is guaranteed to stay open; it returns
+// false without calling f if the replica is closed.
+func (r *Replica) WithAlive(f func(srv *abci.ApplicationServer)) bool {
+	r.life.RLock()
+	defer r.life.RUnlock()
+	if r.srv == nil {
+		return false
+	}
+	f(r.srv)
+	return true
+}
+
 // Close stops the replica and releases its storage.
 func (r *Replica) Close() {
+	r.life.Lock()
+	defer r.life.Unlock()
+	r.closeLocked()
+}
+
+func (r *Replica) closeLocked() {
 	r.mu.Lock()
 	defer r.mu.Unlock()
 	if r.srv == nil {
@@ -176,7 +197,9 @@ func (r *Replica) Restart() error {
 	if r.Cfg.Dir == "" {
 		return fmt.Errorf("memory-only replica cannot restart")
 	}
-	r.Close()
+	r.life.Lock()
+	defer r.life.Unlock()
+	r.closeLocked()
 	return r.open()
 }
 
